@@ -267,6 +267,8 @@ def check_B(cell):
         return None
     if r.creator is not None or r.base is not None or len(r._ops):
         return ("not_detached", "result has creator/base/consumers")
+    if r.constant and r.grad is not None:
+        return ("grad_on_constant", "%s(constant=%r) of a tensor holding a gradient returned a constant tensor that exposes a gradient" % (meth, const))
     if np.shares_memory(r.data, t.data) and not (meth == "astype" and cell[6] is False and rd == t.dtype):
         return ("aliasing", "result shares memory with the source")
     if r.dtype != rd or not np.array_equal(r.data, t.data.astype(rd)):
@@ -385,4 +387,11 @@ def finalize(v):
     return conf.finalize_cell(__import__("harness.C17", fromlist=["x"]), v)
 
 
-MATCHERS = {}
+def m_constant_copy_keeps_grad(v):
+    """F-C17: t.copy(constant=True) of a tensor that holds a gradient returns a constant tensor exposing a copy of it."""
+    f = v.get("failure") or {}
+    cell = (v.get("case") or {}).get("cell") or []
+    return f.get("kind") == "grad_on_constant" and len(cell) > 5 and cell[0] == "B" and cell[2] == "copy" and cell[4] is True and cell[5] is True
+
+
+MATCHERS = {"constant_copy_keeps_grad": m_constant_copy_keeps_grad}
